@@ -347,3 +347,41 @@ Theorem C13_async_buf_depths_elaborate_refuted :
   (exists exact d', async_buf_ctor 2 exact = Some d' /\ async_buf_elab_ok d' = false).
 Proof. split; [exists 2|exists true, 2]; vm_compute; split; reflexivity. Qed.
 Print Assumptions C13_async_buf_depths_elaborate_refuted.
+
+(* ================================================================== regenerated from the source (translator unit `asyncfifo`)
+   Gen/AsyncFifoGen.v is produced on every run by translator/unit_asyncfifo.py from the current text of
+   amaranth/lib/fifo.py (AsyncFIFO.__init__, AsyncFIFOBuffered.__init__, _gray_encode, _gray_decode, w_full of AsyncFIFO.elaborate); the
+   constructors and Gray functions the theorems above talk about are these, for all arguments. *)
+From V.Gen Require AsyncFifoGen.
+From V.Proofs Require GenEqAsyncfifo.
+
+(* the generated AsyncFIFO constructor returns (self.depth, self._ctr_bits) *)
+Theorem C13_translated_async_ctor depth exact :
+  AsyncFifoGen.g_async_ctor depth exact =
+  match async_ctor depth exact with Some d => Some (d, aceil_log2 d + 1) | None => None end.
+Proof. exact (GenEqAsyncfifo.gen_async_ctor_eq depth exact). Qed.
+Print Assumptions C13_translated_async_ctor.
+
+Theorem C13_translated_async_buf_ctor depth exact :
+  AsyncFifoGen.g_async_buf_ctor depth exact = async_buf_ctor depth exact.
+Proof. exact (GenEqAsyncfifo.gen_async_buf_ctor_eq depth exact). Qed.
+Print Assumptions C13_translated_async_buf_ctor.
+
+Theorem C13_translated_gray_encode len val : AsyncFifoGen.g_gray_encode len val = gray_enc val.
+Proof. exact (GenEqAsyncfifo.gen_gray_encode_eq len val). Qed.
+Print Assumptions C13_translated_gray_encode.
+
+Theorem C13_translated_gray_decode len val : AsyncFifoGen.g_gray_decode len val = gray_dec len val.
+Proof. exact (GenEqAsyncfifo.gen_gray_decode_eq len val). Qed.
+Print Assumptions C13_translated_gray_decode.
+
+(* the `w_full.eq(..)` statement of AsyncFIFO.elaborate, read at ctr_bits = n + 1, is the model's gray_full ... *)
+Theorem C13_translated_w_full n p c : AsyncFifoGen.g_w_full (n + 1) p c = gray_full n p c.
+Proof. exact (GenEqAsyncfifo.gen_w_full_eq n p c). Qed.
+Print Assumptions C13_translated_w_full.
+
+(* ... and its integer indices are in range exactly when the model says elaboration succeeds (finding F4) *)
+Theorem C13_translated_w_full_idx_ok d :
+  (d =? 0) || AsyncFifoGen.g_w_full_idx_ok (aceil_log2 d + 1) = async_elab_ok d.
+Proof. exact (GenEqAsyncfifo.gen_w_full_idx_ok_eq d). Qed.
+Print Assumptions C13_translated_w_full_idx_ok.
